@@ -281,7 +281,7 @@ type Graph struct {
 	folding int // >0 while a folding decision is being computed (nested searches do not fold)
 	foldMem map[[2]*ssa.BasicBlock]int8
 	rconds  map[string]int // conditions tested by more than one If: normal form -> index (see initFacts)
-	iphis   []*ssa.Phi // phis whose value decides a later branch (see initFacts)
+	iphis   []*ssa.Phi     // phis whose value decides a later branch (see initFacts)
 	iphiIdx map[*ssa.Phi]int
 	nilMem  map[[3]interface{}]byte
 }
